@@ -346,9 +346,10 @@ def _until_reps(e, out):
     """collect `(!X ~ ANY)*`-shaped repetitions (consume anything until X)"""
     k = e["k"]
     if k in ("rep", "rep1", "repn"):
-        parts = flatten(e["e"], "seq")
-        if len(parts) >= 2 and parts[0]["k"] == "neg" and parts[-1]["k"] == "ident" and parts[-1]["v"] == "ANY":
-            out.append(parts[0]["e"])
+        for alt in flatten(e["e"], "choice"):
+            parts = flatten(alt, "seq")
+            if len(parts) >= 2 and parts[0]["k"] == "neg" and parts[-1]["k"] == "ident" and parts[-1]["v"] == "ANY":
+                out.append(parts[0]["e"])
     for key in ("a", "b", "e"):
         if key in e and isinstance(e[key], dict):
             _until_reps(e[key], out)
@@ -375,3 +376,28 @@ def g16_strings_atomic(ctx, g, prefix):
     ctx.check(not bad, prefix, "G16|strings-atomic",
               "G16: every string-literal body reachable from `file` is matched atomically, so comment openers inside a string are text (non-atomic: %s)"
               % (sorted(set(bad)) or "none"), W)
+
+
+def g17_string_escapes(ctx, g, prefix):
+    """inside a string literal a backslash is consumed together with the character after it (escape by state):
+    otherwise `\\"` closes the string early (a target / key-value string with an escaped quote loses the whole
+    statement) or — when only the pair `\\"` is special — `"..\\\\"` runs on into the next statement"""
+    if not need(ctx, g, prefix, ["string_value"]):
+        return
+    e = g.inline(g.expr("string_value"))
+    ok = False
+    shape = "no repetition"
+    if e["k"] in ("rep", "rep1"):
+        alts = flatten(e["e"], "choice")
+        esc = [a for a in alts if [(p["k"], p.get("v")) for p in flatten(a, "seq")] == [("str", "\\"), ("ident", "ANY")]]
+        plain = [a for a in alts if len(flatten(a, "seq")) == 2 and flatten(a, "seq")[0]["k"] == "neg" and flatten(a, "seq")[1].get("v") == "ANY"]
+        stops = set()
+        for a in plain:
+            stops |= g.vocab(flatten(a, "seq")[0]["e"])
+        first_is_esc = bool(alts) and alts[0] in esc
+        ok = len(alts) == 2 and len(esc) == 1 and len(plain) == 1 and first_is_esc and stops == {'"'}
+        shape = "%d alternatives, escape first: %s, stops: %s" % (len(alts), first_is_esc, sorted(stops))
+    ctx.check(ok, prefix, "G17|string-escape", "G17: string_value = ( `\\` ANY | !`\"` ANY )* — a backslash takes the next character with it (%s)" % shape, W)
+    if "string_literal" in g.rules:
+        sl = [(p["k"], p.get("v")) for p in g.seq_of("string_literal")]
+        ctx.check(sl == [("str", '"'), ("ident", "string_value"), ("str", '"')], prefix, "G17|literal-shape", "G17: string_literal = `\"` string_value `\"` (%s)" % sl, W)
